@@ -62,6 +62,9 @@ def configs() -> Dict[str, dict]:
     # cap vs a combinatorial source inside a by_position block: 2 rows -> 4 runs
     add("rs-source-combinatorial", nodes("src_ctx", "failif") + [{"processor": 'template:"out_{value}_{a}.txt":path'}, {"processor": "VTxtSink"}],
         {"blocks": [{"mode": "by_position", "source": {"format": "csv", "path": "va.csv", "mode": "combinatorial"}}]}, needs=())
+    # beyond the small scope: a source file of 2.4 MB / 1200 rows against a cap of 1000 (the whole file counts, not its first megabyte)
+    add("rs-big-csv-over-cap", base, {"max_runs": 1000, "blocks": [{"mode": "by_position", "source": {"format": "csv", "path": "big.csv", "select": ["value", "a"]}}]},
+        invalid="runspace", needs=())
     add("rs-missing-key", nodes("src_ctx", "mul", "failif") + VALID_TAIL, {"blocks": [{"mode": "by_position", "context": {"value": [1.0, 2.0]}}]}, needs=("factor",))
     return c
 
@@ -135,6 +138,12 @@ def invoke(cfg_name: str, spec: Optional[dict], raw: Optional[str], flags: List[
         cli.write_yaml(yp, cfg)
         with open(os.path.join(scratch, "va.csv"), "w") as f:
             f.write("value,a\n1.0,0.0\n2.0,0.5\n")
+        if cfg_name.startswith("rs-big"):
+            with open(os.path.join(scratch, "big.csv"), "w") as f:
+                f.write("value,a,pad\n")
+                pad = "p" * 2000
+                for i in range(1200):
+                    f.write(f"{float(i + 1)},0.0,{pad}\n")
     else:
         yp = os.path.join(scratch, "does-not-exist.yaml")
     argv = ["run", yp, "-q", *flags]
@@ -156,7 +165,8 @@ def planned_runs(spec: dict, ctx: Dict[str, Any], cap: Optional[int]) -> Tuple[s
     rs2 = dict(rs)
     if cap is not None:
         rs2["max_runs"] = cap
-    p = rsref.plan(rs2, {"nope.csv": None, "va.csv": {"value": [1.0, 2.0], "a": [0.0, 0.5]}})
+    p = rsref.plan(rs2, {"nope.csv": None, "va.csv": {"value": [1.0, 2.0], "a": [0.0, 0.5]},
+                         "big.csv": {"value": [float(i + 1) for i in range(1200)], "a": [0.0] * 1200, "pad": ["p"] * 1200}})
     if p[0] == "ok":
         return "ok", [{**ctx, **r} for r in p[2]()]
     return p[0], []
